@@ -367,7 +367,7 @@ impl Node {
                     })?;
                     let var_update_path_tree =
                         w.declare_var_on_top_scope_init(|w, var_update_path_tree| {
-                            write!(w, "C?!0:W[{}]", gen_lit_str(slot_value_name))?;
+                            write!(w, "C?!0:X(W)[{}]", gen_lit_str(slot_value_name))?;
                             Ok(var_update_path_tree)
                         })?;
                     var_slot_map.insert(slot_value_name.clone(), (var_scope, var_update_path_tree));
